@@ -8,7 +8,7 @@ so that two programs which differ only by them are analysed as the same program.
      not take `self` is inlined where its call is the whole value of an expression statement, an assignment or a return.
   2. a local assigned exactly once from a pure expression of stable operands is replaced by that expression at its uses
      (copy propagation); parallel assignments of tuples are split first.  Locals whose name carries an axis or role
-     tag (il, xl, z, trace, header) are kept: the axis rules read those names as the code's own type annotations.
+     tag (il, xl, z, trace, shape) are kept: the axis rules read those names as the code's own type annotations.
      Locals that are indexed or dotted anywhere (buffers, arrays, tuples, handles) are kept as well.
   3. `x = a if c else b` becomes `if c: x = a  else: x = b`; likewise `return a if c else b`.
   4. a `for` over a literal tuple of tuples (or of expressions) whose body neither breaks nor continues is unrolled.
@@ -76,6 +76,18 @@ def enabled():
 # ---------------------------------------------------------------------------
 def _is_private(name):
     return name.startswith('_') and not name.startswith('__')
+
+
+def _const_expr(v):
+    """literal numbers / strings, arithmetic over them and over other names, dotted names of imported modules (enum
+    members such as segyio.TraceField.INLINE_3D): no calls, no containers."""
+    for x in ast.walk(v):
+        if isinstance(x, ast.Constant):
+            if isinstance(x.value, bool) or not isinstance(x.value, (int, float, str)):
+                return False
+        elif not isinstance(x, (ast.BinOp, ast.UnaryOp, ast.Name, ast.Attribute, ast.operator, ast.unaryop, ast.expr_context)):
+            return False
+    return True
 
 
 def _docless(body):
@@ -240,7 +252,7 @@ class ModuleNormaliser:
             elif isinstance(n, ast.Assign) and len(n.targets) == 1 and isinstance(n.targets[0], ast.Name) and \
                     _is_private(n.targets[0].id):
                 v = n.value
-                if isinstance(v, ast.Constant) and isinstance(v.value, (int, str)) and not isinstance(v.value, bool):
+                if _const_expr(v):
                     self.consts[n.targets[0].id] = v
         # constants must be bound once in the module
         counts = {}
@@ -248,6 +260,12 @@ class ModuleNormaliser:
             if isinstance(n, ast.Name) and isinstance(n.ctx, (ast.Store, ast.Del)):
                 counts[n.id] = counts.get(n.id, 0) + 1
         self.consts = {k: v for k, v in self.consts.items() if counts.get(k, 0) == 1}
+        # constants defined from other private constants
+        for _ in range(4):
+            sub = _Subst(self.consts)
+            self.consts = {k: sub.visit(copy.deepcopy(v)) for k, v in self.consts.items()}
+        self.consts = {k: v for k, v in self.consts.items()
+                       if not any(isinstance(x, ast.Name) and _is_private(x.id) for x in ast.walk(v))}
         self.class_of = {}
         for n in tree.body:
             if isinstance(n, ast.ClassDef):
@@ -382,14 +400,20 @@ class ModuleNormaliser:
             return None
         # loop variables must not be assigned in the body or used after the loop (they are, at most, read in the body)
         sites = _assigned_names(fn)
-        for nm in names:
-            if len(sites.get(nm, [])) != 1:
-                return None
-        # used after the loop?  (any load outside the loop body)
         inside = {id(x) for b in s.body for x in ast.walk(b)}
+        for nm in names:
+            # not re-bound inside the body
+            if any(id(a) in inside for a in sites.get(nm, []) if a is not s):
+                return None
+        index = _Index(fn)
         for x in _all_nodes(fn):
             if isinstance(x, ast.Name) and x.id in names and isinstance(x.ctx, ast.Load) and id(x) not in inside:
-                return None
+                if len(sites.get(x.id, [])) == 1:
+                    return None          # the only binding is this loop: the load reads its last value
+                st = index.stmt_of(x)
+                # a load that can run after this loop (later statement, or anywhere in a loop around both) may read it
+                if st is None or not (index.precedes(st, s) or index.exclusive(st, s)) or index.common_loop(st, s):
+                    return None
         out = []
         for el in s.iter.elts:
             if isinstance(tgt, ast.Name):
@@ -848,7 +872,7 @@ def _typed_name(name):
     the axis rules read them, so they are kept as named definitions."""
     from .axes import axis_of_text
     n = name.lower()
-    if axis_of_text(name) is not None or 'trace' in n or 'header' in n or 'shape' in n:
+    if axis_of_text(name) is not None or 'trace' in n or 'shape' in n:
         return True
     try:
         from .axes import role_of
@@ -868,12 +892,14 @@ class _Index:
         self.block_of = {}   # id(stmt) -> list
         self.parent_stmt = {}
         self.owner = {}      # id(node) -> stmt
+        self.by_path = {}
         self._walk(fn.body, (), None)
 
     def _walk(self, body, path, parent):
         for i, s in enumerate(body):
             p = path + (i,)
             self.pos[id(s)] = p
+            self.by_path[p] = s
             self.block_of[id(s)] = body
             self.parent_stmt[id(s)] = parent
             blocks = []
@@ -930,6 +956,35 @@ class _Index:
         for x, y in zip(pa, pd):
             if x != y:
                 return isinstance(x, int) and isinstance(y, int) and x < y
+        return False
+
+    def exclusive(self, a, d):
+        """a and d lie in different arms of one `if` statement."""
+        pa, pd = self.pos.get(id(a)), self.pos.get(id(d))
+        if pa is None or pd is None:
+            return False
+        for k, (x, y) in enumerate(zip(pa, pd)):
+            if x != y:
+                if isinstance(x, tuple) and isinstance(y, tuple) and {x[0], y[0]} == {'body', 'orelse'}:
+                    # the statement owning these blocks
+                    owner = self.by_path.get(pa[:k])
+                    return isinstance(owner, ast.If)
+                return False
+        return False
+
+    def common_loop(self, a, d):
+        """is there a loop statement whose body holds both a and d?"""
+        x = self.parent_stmt.get(id(a))
+        anc = set()
+        while x is not None:
+            if isinstance(x, (ast.For, ast.While)):
+                anc.add(id(x))
+            x = self.parent_stmt.get(id(x))
+        y = self.parent_stmt.get(id(d))
+        while y is not None:
+            if id(y) in anc:
+                return True
+            y = self.parent_stmt.get(id(y))
         return False
 
     def encloses(self, a, d):
